@@ -117,7 +117,11 @@ def run(ctx):
     if not all_lines:
         ctx.tie_broken("no-trace", "the hooked solver wrote no trace events (hooks removed or OPENSMT_VERIF not compiled in)")
         return
-    rc, outs, err = sattrace.run_driver(exe, all_lines, timeout=900 if ctx.quick else 3000)
+    try:
+        rc, outs, err = sattrace.run_driver(exe, all_lines, timeout=600 if ctx.quick else 3000)
+    except Exception as e:
+        ctx.tie_broken("sat-driver", "the extracted checker did not finish: %s" % str(e)[:200])
+        return
     if rc != 0 or len(outs) != len(all_lines):
         ctx.tie_broken("sat-driver", "rc=%s, %d answers for %d commands; %s" % (rc, len(outs), len(all_lines), err[-500:]))
         return
@@ -161,6 +165,8 @@ def run(ctx):
         elif ans == "implied":
             ctx.tie_broken("not-RUP-but-implied", "event %d (%s) of config %s: clause %s is implied (verified dpll: no countermodel) but "
                            "not confirmed by reverse unit propagation" % (k, kind, cfg, lits), case)
+        elif ans == "notrup":
+            ctx.tie_broken("learnt-clause-not-rup", "event %d (%s) of config %s: clause %s (no search: budget of the run used up)" % (k, kind, cfg, lits), None)
         else:
             ctx.tie_broken("sat-checker-undecided", "%s for event %d (%s), config %s" % (ans, k, kind, cfg), case)
     ctx.count("runs", len(runs))
